@@ -819,9 +819,13 @@ def c02_compare(case, kinds, req, m_req, d, table, stats, report, viol):
         stats["requeries"] += 1
         rq, rd, rtable = run_query(case["doc"], ptxt, "req")
         got = None if rq.get("err") else [addr_only(x) for x in rq["res"]]
-        last_is_anchor = bool(isegs) and isegs[-1][0] == "ANCHOR"
-        if last_is_anchor and got is not None and a in got:
-            continue
+        # a path that names an anchor returns the node once per place it is aliased
+        has_anchor = any(sg[0] == "ANCHOR" for sg in (isegs or []))
+        if has_anchor and got is not None and a in got:
+            last_is_anchor = isegs[-1][0] == "ANCHOR"
+            node_obj = resolve(rd, a)
+            if last_is_anchor or all(isinstance(x, list) and resolve(rd, x) is node_obj for x in got):
+                continue
         if got != [a]:
             report(viol, "c02:path-does-not-reresolve:%s" % kinds,
                    "%r: result %s reports path %r, which evaluates to %s" % (text, a, ptxt, rq.get("err") or got),
